@@ -20,3 +20,6 @@ func hBit(m *Mask, j uint8) bool {
 }
 
 func hIDInRange(j uint8) bool { return true }
+
+// hSetBit ors bit id into m without branching on v.
+func hSetBit(m *Mask, id uint8, v bool) { m.bits[id>>6] |= vB2U(v) << (id & 63) }
